@@ -1715,6 +1715,12 @@ pub(crate) use calculate_rm;
 
 macro_rules! fatal_error {
     ($message:expr, $($arg:tt)*) => {{
+        // Verification hook H2: by-design rejections are error values, as on wasm32
+        #[cfg(any(kani, ax_verif))]
+        {
+            return Err(AxError::from(format!($message, $($arg)*)).into());
+        }
+
         #[cfg(all(target_arch = "wasm32", not(test)))]
         {
             // In WASM we don't panic, as it's not possible to catch panics from JS
@@ -1727,6 +1733,12 @@ macro_rules! fatal_error {
         }
     }};
     ($message:expr) => {{
+        // Verification hook H2: by-design rejections are error values, as on wasm32
+        #[cfg(any(kani, ax_verif))]
+        {
+            return Err(AxError::from($message).into());
+        }
+
         #[cfg(all(target_arch = "wasm32", not(test)))]
         {
             // In WASM we don't panic, as it's not possible to catch panics from JS
@@ -1757,6 +1769,15 @@ pub(crate) use assert_fatal;
 
 macro_rules! opcode_unimplemented {
     ($message:expr) => {{
+        // Verification hook H2: by-design rejections are error values, as on wasm32
+        #[cfg(any(kani, ax_verif))]
+        {
+            return Err(AxError::from(format!(
+                "Executed unimplemented opcode: {}",
+                $message
+            )));
+        }
+
         #[cfg(target_arch = "wasm32")]
         {
             // In WASM we don't panic, as it's not possible to catch panics from JS
